@@ -117,3 +117,44 @@ func init() {
 			Opts: vrt.Options{Delay: true}, Run: workerScenario(c.holders, c.rounds), Check: workerCheck})
 	}
 }
+
+// V-early: the worker function returns at once, after handing its stop channel to a helper
+// goroutine: the stop channel must still be closed once nobody holds the worker.
+func workerEarlyReturn() {
+	var w Worker
+	var hwg sync.WaitGroup
+	fn := func(stop <-chan struct{}) {
+		hwg.Add(1)
+		go func() {
+			defer hwg.Done()
+			<-stop
+			vrt.Log("helper-saw-stop")
+		}()
+		vrt.Log("fnstart", 1)
+		vrt.Log("exit", 1)
+	}
+	var wg sync.WaitGroup
+	for h := 0; h < 2; h++ {
+		wg.Add(1)
+		go func() {
+			defer wg.Done()
+			vrt.Log("docall", h)
+			done := w.Do(fn)
+			vrt.Log("held", h, 0)
+			vrt.Point()
+			vrt.Log("release", h, 0)
+			done()
+		}()
+	}
+	wg.Wait()
+	// one more hold makes sure every earlier instance has been shut down completely
+	done := w.Do(fn)
+	done()
+	vrt.Log("joined")
+}
+
+func init() {
+	vrt.Register(&vrt.Scenario{Name: "V-early", Props: []string{"C17", "C11:race", "C12:goroutine-leak"}, Quick: 3, Thorough: 5,
+		Desc: "a worker function that returns at once after handing its stop channel to a helper goroutine; two holders",
+		Opts: vrt.Options{Delay: true}, Run: workerEarlyReturn, Check: workerEarlyCheck})
+}
